@@ -115,13 +115,16 @@ def match_angle(toks, i):
                 break
     raise ExtractionBreak('unbalanced <')
 
-def split_top(toks, sep=','):
-    """split a token list at separators that are at bracket depth 0 (also <> aware for types)"""
+def split_top(toks, sep=',', angle=False):
+    """split a token list at separators that are at bracket depth 0 (angle=True: also inside <...>, for parameter lists)"""
     parts = []; cur = []; d = 0
     for t in toks:
         if t.k == 'op':
             if t.t in OPEN: d += 1
             elif t.t in CLOSE: d -= 1
+            elif angle and t.t == '<': d += 1
+            elif angle and t.t == '>': d -= 1
+            elif angle and t.t == '>>': d -= 2
             elif t.t == sep and d == 0:
                 parts.append(cur); cur = []
                 continue
@@ -451,7 +454,7 @@ def find_function(toks, qual, inclass=None, ordinal=0, nparams=None):
             if sig(t): start = r
             r -= 1
         f.ret_toks = [x for x in toks[start:sidx[p]] if sig(x)]
-        params = [strip_ws(x) for x in split_top(toks[k + 1:close])]
+        params = [strip_ws(x) for x in split_top(toks[k + 1:close], angle=True)]
         params = [x for x in params if x]
         f.params = params
         found.append(f)
@@ -695,6 +698,16 @@ class Body:
                 if pp_ is None or toks[pp_].k != 'id' or toks[pp_].t in ('return',):
                     i += 1      # global scope resolution  ::f  ->  f
                     continue
+            if t.k == 'id' and t.t == 'typename':
+                j = i; txt = ''
+                while True:
+                    j = next_sig(toks, j)
+                    if j is None or (toks[j].k == 'op' and toks[j].t in (')', ',', '>', ';')): break
+                    txt += toks[j].t
+                key = 'typename ' + txt
+                if key in tm:
+                    out.append(T('id', tm[key])); i = j; self.fire('R11dep'); continue
+                raise ExtractionBreak('no binding for dependent type %r' % key)
             if t.k == 'id' and t.t == 'sizeof':
                 a1 = next_sig(toks, i)
                 if a1 is not None and toks[a1].t == '(':
@@ -1355,7 +1368,8 @@ class Body:
                                 if x.t in OPEN: d3 += 1
                                 elif x.t in CLOSE: d3 -= 1
                                 elif x.t == '=' and d3 == 0: eqi = zi; break
-                        is_decl = len(ssig) >= 2 and ssig[0].k == 'id' and (ssig[1].k == 'id' or ssig[1].t == '*') and ssig[0].t not in ('return',)
+                        is_decl = (len(ssig) >= 2 and ssig[0].k == 'id' and (ssig[1].k == 'id' or ssig[1].t == '*') and ssig[0].t not in ('return',)) \
+                                  or (ssig and ssig[0].t in ('__typeof__', 'const', 'static'))
                         if eqi is not None and not is_decl and ssig and ssig[0].t != 'return':
                             lhs = untok(strip_ws(stmt[:eqi])); rhs = untok(strip_ws(stmt[eqi + 1:]))
                             lead = [x for x in stmt[:len(stmt) - len(strip_ws(stmt))]] if False else []
